@@ -331,15 +331,24 @@ Proof.
 Qed.
 
 (* ---------- reception at table level --------------------------------------------------------- *)
-Lemma get_or_new_addr t a : e_addr (fst (get_or_new t a)) = a.
-Proof. unfold get_or_new. destruct (find t a) eqn:F; cbn; [apply (find_some _ _ _ F) | reflexivity]. Qed.
+Lemma live_some t a now life e : live t a now life = Some e -> find t a = Some e /\ keep now life e = true.
+Proof. unfold live. destruct (find t a) as [x|]; [|discriminate]. destruct (keep now life x) eqn:K; [|discriminate]. intros E. injection E as <-. auto. Qed.
+
+Lemma live_find t a now life e : find t a = Some e -> live t a now life = if keep now life e then Some e else None.
+Proof. unfold live. intros ->. reflexivity. Qed.
+
+Lemma get_or_new_addr t a now life : e_addr (fst (get_or_new t a now life)) = a.
+Proof.
+  unfold get_or_new. destruct (live t a now life) eqn:F; cbn; [|reflexivity].
+  apply live_some in F as [F _]. apply (find_some _ _ _ F).
+Qed.
 
 Lemma uniq_rx_shb t pv now life : uniq t -> uniq (rx_shb t pv now life).
-Proof. intros H. unfold rx_shb. destruct (get_or_new t (pv_addr pv)). apply uniq_filter, uniq_upsert, H. Qed.
+Proof. intros H. unfold rx_shb. destruct (get_or_new t (pv_addr pv) now life). apply uniq_filter, uniq_upsert, H. Qed.
 
 Lemma uniq_rx_mh t pv sn now life len t' : uniq t -> rx_mh t pv sn now life len = Some t' -> uniq t'.
 Proof.
-  intros H. unfold rx_mh. destruct (get_or_new t (pv_addr pv)). destruct (check_dup _ _ _); [|discriminate].
+  intros H. unfold rx_mh. destruct (get_or_new t (pv_addr pv) now life). destruct (check_dup _ _ _); [|discriminate].
   intros E. injection E as <-. apply uniq_filter, uniq_upsert, H.
 Qed.
 
@@ -347,8 +356,8 @@ Qed.
 Theorem rx_shb_neighbour t pv now life e : uniq t ->
   find (rx_shb t pv now life) (pv_addr pv) = Some e -> e_nb e = true /\ e_set e = true.
 Proof.
-  intros Hu. unfold rx_shb. pose proof (get_or_new_addr t (pv_addr pv)) as A.
-  destruct (get_or_new t (pv_addr pv)) as [e0 isnew]. cbn [fst] in A.
+  intros Hu. unfold rx_shb. pose proof (get_or_new_addr t (pv_addr pv) now life) as A.
+  destruct (get_or_new t (pv_addr pv) now life) as [e0 isnew]. cbn [fst] in A.
   set (e2 := mkEntry _ _ _ true _ _).
   assert (A2 : e_addr e2 = pv_addr pv) by (unfold e2; cbn; destruct (update_frame e0 pv) as [-> _]; exact A).
   rewrite find_refresh by (apply uniq_upsert, Hu). rewrite <- A2, find_upsert_same.
@@ -357,32 +366,31 @@ Proof.
   destruct (tst_gt _ _); cbn; [reflexivity|]. destruct (e_set e0); [reflexivity | discriminate].
 Qed.
 
-Definition mh_entry (t : list entry) (pv d : list Z) : entry :=
-  update_pv (mkEntry (e_addr (fst (get_or_new t (pv_addr pv)))) (e_pv (fst (get_or_new t (pv_addr pv))))
-                     (e_set (fst (get_or_new t (pv_addr pv)))) (e_nb (fst (get_or_new t (pv_addr pv))))
-                     (e_ls (fst (get_or_new t (pv_addr pv)))) d) pv.
+Definition mh_entry (t : list entry) (pv d : list Z) (now life : Z) : entry :=
+  let e := fst (get_or_new t (pv_addr pv) now life) in
+  update_pv (mkEntry (e_addr e) (e_pv e) (e_set e) (e_nb e) (e_ls e) d) pv.
 
-Lemma mh_entry_frame t pv d :
-  e_addr (mh_entry t pv d) = pv_addr pv /\
-  e_nb (mh_entry t pv d) = match find t (pv_addr pv) with Some e => e_nb e | None => false end /\
-  e_dpl (mh_entry t pv d) = d /\ e_set (mh_entry t pv d) = true.
+Lemma mh_entry_frame t pv d now life :
+  e_addr (mh_entry t pv d now life) = pv_addr pv /\
+  e_nb (mh_entry t pv d now life) = match live t (pv_addr pv) now life with Some e => e_nb e | None => false end /\
+  e_dpl (mh_entry t pv d now life) = d /\ e_set (mh_entry t pv d now life) = true.
 Proof.
-  unfold mh_entry.
-  destruct (update_frame (mkEntry (e_addr (fst (get_or_new t (pv_addr pv)))) (e_pv (fst (get_or_new t (pv_addr pv))))
-             (e_set (fst (get_or_new t (pv_addr pv)))) (e_nb (fst (get_or_new t (pv_addr pv))))
-             (e_ls (fst (get_or_new t (pv_addr pv)))) d) pv) as (-> & -> & _ & ->).
+  unfold mh_entry. cbv zeta.
+  destruct (update_frame (mkEntry (e_addr (fst (get_or_new t (pv_addr pv) now life))) (e_pv (fst (get_or_new t (pv_addr pv) now life)))
+             (e_set (fst (get_or_new t (pv_addr pv) now life))) (e_nb (fst (get_or_new t (pv_addr pv) now life)))
+             (e_ls (fst (get_or_new t (pv_addr pv) now life))) d) pv) as (-> & -> & _ & ->).
   cbn [e_addr e_nb e_dpl]. rewrite get_or_new_addr. repeat split.
-  - unfold get_or_new. destruct (find t (pv_addr pv)); reflexivity.
+  - unfold get_or_new. destruct (live t (pv_addr pv) now life); reflexivity.
   - unfold update_pv. cbn [e_set e_pv e_addr e_nb e_ls e_dpl]. destruct (negb (e_set _)) eqn:N; [reflexivity|].
     destruct (tst_gt _ _); cbn; [reflexivity|]. destruct (e_set _); [reflexivity|discriminate].
 Qed.
 
 Lemma rx_mh_spec t pv sn now life len t' : uniq t -> rx_mh t pv sn now life len = Some t' ->
-  exists d, check_dup (e_dpl (fst (get_or_new t (pv_addr pv)))) sn len = Some d /\
-    find t' (pv_addr pv) = (if keep now life (mh_entry t pv d) then Some (mh_entry t pv d) else None).
+  exists d, check_dup (e_dpl (fst (get_or_new t (pv_addr pv) now life))) sn len = Some d /\
+    find t' (pv_addr pv) = (if keep now life (mh_entry t pv d now life) then Some (mh_entry t pv d now life) else None).
 Proof.
-  intros Hu. unfold rx_mh, mh_entry. pose proof (get_or_new_addr t (pv_addr pv)) as A.
-  destruct (get_or_new t (pv_addr pv)) as [e0 isnew]. cbn [fst] in *.
+  intros Hu. unfold rx_mh, mh_entry. cbv zeta. pose proof (get_or_new_addr t (pv_addr pv) now life) as A.
+  destruct (get_or_new t (pv_addr pv) now life) as [e0 isnew]. cbn [fst] in *.
   destruct (check_dup (e_dpl e0) sn len) as [d|]; [|discriminate]. intros E. injection E as <-.
   exists d. split; [reflexivity|].
   set (e1 := update_pv _ pv).
@@ -391,22 +399,40 @@ Proof.
   rewrite find_refresh by (apply uniq_upsert, Hu). rewrite <- A1, find_upsert_same. reflexivity.
 Qed.
 
-(* a multi-hop packet of S leaves S's neighbour flag as it was, FALSE if S was unknown *)
+(* a multi-hop packet of S leaves S's neighbour flag as it was, FALSE if S was unknown - or known only through an
+   entry whose lifetime had run out *)
 Theorem rx_mh_neighbour t pv sn now life len t' e' : uniq t ->
   rx_mh t pv sn now life len = Some t' -> find t' (pv_addr pv) = Some e' ->
-  e_nb e' = match find t (pv_addr pv) with Some e => e_nb e | None => false end.
+  e_nb e' = match live t (pv_addr pv) now life with Some e => e_nb e | None => false end.
 Proof.
   intros Hu R F. destruct (rx_mh_spec _ _ _ _ _ _ _ Hu R) as (d & _ & S). rewrite S in F.
   destruct (keep now life _); [|discriminate]. injection F as <-.
-  apply (mh_entry_frame t pv d).
+  apply (mh_entry_frame t pv d now life).
+Qed.
+
+(* an entry whose lifetime has run out is not re-used: the station starts again as unknown - not a neighbour, and
+   with an empty duplicate packet list (holding this packet's sequence number only) *)
+Theorem rx_mh_expired_entry_not_reused t pv sn now life len t' e e' : uniq t ->
+  find t (pv_addr pv) = Some e -> keep now life e = false ->
+  rx_mh t pv sn now life len = Some t' -> find t' (pv_addr pv) = Some e' ->
+  e_nb e' = false /\ e_dpl e' = [sn].
+Proof.
+  intros Hu Fe K R F. split.
+  - rewrite (rx_mh_neighbour _ _ _ _ _ _ _ _ Hu R F), (live_find _ _ now life _ Fe), K. reflexivity.
+  - destruct (rx_mh_spec _ _ _ _ _ _ _ Hu R) as (d & D & S). rewrite S in F.
+    destruct (keep now life (mh_entry t pv d now life)); [|discriminate]. injection F as <-.
+    destruct (mh_entry_frame t pv d now life) as (_ & _ & -> & _).
+    unfold get_or_new in D. rewrite (live_find _ _ now life _ Fe), K in D.
+    cbn [fst new_entry e_dpl] in D. unfold check_dup in D. cbn [existsb length] in D.
+    destruct (Z.of_nat 0 =? len); cbn [tl app] in D; congruence.
 Qed.
 
 (* entries of other stations are untouched by a reception (they can only expire) *)
 Theorem rx_shb_frame t pv now life a e : uniq t -> a <> pv_addr pv ->
   find (rx_shb t pv now life) a = Some e -> find t a = Some e.
 Proof.
-  intros Hu Hn. unfold rx_shb. pose proof (get_or_new_addr t (pv_addr pv)) as A.
-  destruct (get_or_new t (pv_addr pv)) as [e0 isnew]. cbn [fst] in A.
+  intros Hu Hn. unfold rx_shb. pose proof (get_or_new_addr t (pv_addr pv) now life) as A.
+  destruct (get_or_new t (pv_addr pv) now life) as [e0 isnew]. cbn [fst] in A.
   rewrite find_refresh by (apply uniq_upsert, Hu).
   rewrite find_upsert_other by (cbn; destruct (update_frame e0 pv) as [-> _]; congruence).
   destruct (find t a) as [x|]; [|discriminate]. destruct (keep now life x); [auto|discriminate].
@@ -415,8 +441,8 @@ Qed.
 Theorem rx_mh_frame t pv sn now life len t' a e : uniq t -> a <> pv_addr pv ->
   rx_mh t pv sn now life len = Some t' -> find t' a = Some e -> find t a = Some e.
 Proof.
-  intros Hu Hn. unfold rx_mh. pose proof (get_or_new_addr t (pv_addr pv)) as A.
-  destruct (get_or_new t (pv_addr pv)) as [e0 isnew]. cbn [fst] in A.
+  intros Hu Hn. unfold rx_mh. pose proof (get_or_new_addr t (pv_addr pv) now life) as A.
+  destruct (get_or_new t (pv_addr pv) now life) as [e0 isnew]. cbn [fst] in A.
   destruct (check_dup _ sn len) as [d|]; [|discriminate]. intros E. injection E as <-.
   rewrite find_refresh by (apply uniq_upsert, Hu).
   rewrite find_upsert_other.
@@ -429,8 +455,8 @@ Theorem rx_shb_present t pv now life : uniq t ->
   exists e, e_addr e = pv_addr pv /\ e_set e = true /\
     find (rx_shb t pv now life) (pv_addr pv) = if keep now life e then Some e else None.
 Proof.
-  intros Hu. unfold rx_shb. pose proof (get_or_new_addr t (pv_addr pv)) as A.
-  destruct (get_or_new t (pv_addr pv)) as [e0 isnew]. cbn [fst] in A.
+  intros Hu. unfold rx_shb. pose proof (get_or_new_addr t (pv_addr pv) now life) as A.
+  destruct (get_or_new t (pv_addr pv) now life) as [e0 isnew]. cbn [fst] in A.
   set (e2 := mkEntry _ _ _ true _ _).
   assert (A2 : e_addr e2 = pv_addr pv) by (unfold e2; cbn; destruct (update_frame e0 pv) as [-> _]; exact A).
   exists e2. split; [exact A2|]. split.
@@ -451,6 +477,7 @@ Definition lstep (life len : Z) (t : list entry) (o : lop) : list entry :=
 Definition lrun (life len : Z) (t : list entry) (ops : list lop) : list entry := fold_left (lstep life len) ops t.
 
 Definition op_addr (o : lop) : list Z := match o with LShb pv _ => pv_addr pv | LMh pv _ _ => pv_addr pv end.
+Definition op_now (o : lop) : Z := match o with LShb _ now => now | LMh _ _ now => now end.
 Definition is_shb (o : lop) : bool := match o with LShb _ _ => true | _ => false end.
 
 Lemma uniq_lstep life len t o : uniq t -> uniq (lstep life len t o).
@@ -463,19 +490,31 @@ Qed.
 Lemma uniq_lrun life len ops : forall t, uniq t -> uniq (lrun life len t ops).
 Proof. unfold lrun. induction ops as [|o ops IH]; cbn; auto using uniq_lstep. Qed.
 
-(* one step: the neighbour flag of A afterwards, if A is still present *)
+(* one step: the neighbour flag of A afterwards, if A is still present.  For the station the packet comes from, the
+   flag it had counts only while its entry had not expired when the packet arrived. *)
+(* a duplicate is only ever found in an entry that has not expired *)
+Lemma rx_mh_dup_live t pv sn now life len : rx_mh t pv sn now life len = None ->
+  exists e, live t (pv_addr pv) now life = Some e.
+Proof.
+  unfold rx_mh, get_or_new. destruct (live t (pv_addr pv) now life) as [e|]; [eauto|].
+  cbv beta iota zeta delta [new_entry e_dpl check_dup existsb]. discriminate.
+Qed.
+
 Lemma lstep_nb life len t o a e' : uniq t -> find (lstep life len t o) a = Some e' ->
-  e_nb e' = if list_eqb (op_addr o) a then (is_shb o || match find t a with Some e => e_nb e | None => false end)
+  e_nb e' = if list_eqb (op_addr o) a
+            then (is_shb o || match live t a (op_now o) life with Some e => e_nb e | None => false end)
             else match find t a with Some e => e_nb e | None => false end.
 Proof.
   intros Hu F. destruct (list_eqb (op_addr o) a) eqn:E.
-  - apply list_eqb_eq in E. subst a. destruct o as [pv now|pv sn now]; cbn in *.
+  - apply list_eqb_eq in E. subst a. destruct o as [pv now|pv sn now]; cbn [lstep op_addr op_now is_shb orb] in *.
     + apply (rx_shb_neighbour _ _ _ _ _ Hu F).
     + destruct (rx_mh t pv sn now life len) as [t'|] eqn:R.
       * apply (rx_mh_neighbour _ _ _ _ _ _ _ _ Hu R F).
-      * rewrite F. reflexivity.
+      * (* a duplicate: the table is untouched, and the entry in which it was found has not expired *)
+        destruct (rx_mh_dup_live _ _ _ _ _ _ R) as [x L]. rewrite L.
+        apply live_some in L as [L _]. congruence.
   - assert (Hn : a <> op_addr o) by (intros ->; rewrite list_eqb_refl in E; discriminate).
-    destruct o as [pv now|pv sn now]; cbn in *.
+    destruct o as [pv now|pv sn now]; cbn [lstep op_addr op_now is_shb] in *.
     + rewrite (rx_shb_frame _ _ _ _ _ _ Hu Hn F). reflexivity.
     + destruct (rx_mh t pv sn now life len) as [t'|] eqn:R.
       * rewrite (rx_mh_frame _ _ _ _ _ _ _ _ _ Hu Hn R F). reflexivity.
@@ -494,17 +533,19 @@ Proof.
     + intros e0 F0. rewrite (lstep_nb _ _ _ _ _ _ Hu F0).
       destruct (list_eqb (op_addr o) a) eqn:E.
       * apply list_eqb_eq in E. rewrite (Hops o (or_introl eq_refl) E). cbn.
-        destruct (find t a) eqn:G; auto.
+        destruct (live t a (op_now o) life) eqn:G; [|reflexivity]. apply live_some in G as [G _]. auto.
       * destruct (find t a) eqn:G; auto.
     + intros o' Hin. apply Hops. right. exact Hin.
 Qed.
 
-(* S stays a neighbour from a beacon / SHB on, whatever is processed afterwards, for as long as its
-   entry is continuously present. *)
+(* S stays a neighbour from a beacon / SHB on, whatever is processed afterwards, until its entry expires: for as
+   long as the entry is continuously present and its lifetime has not run out when a multi-hop packet of S arrives
+   (an expired entry is not re-used: rx_mh_expired_entry_not_reused). *)
 Fixpoint present_throughout (life len : Z) (t : list entry) (a : list Z) (ops : list lop) : Prop :=
   match ops with
   | [] => True
-  | o :: r => find (lstep life len t o) a <> None /\ present_throughout life len (lstep life len t o) a r
+  | o :: r => (op_addr o = a -> is_shb o = false -> live t a (op_now o) life <> None) /\
+              find (lstep life len t o) a <> None /\ present_throughout life len (lstep life len t o) a r
   end.
 
 Theorem neighbour_until_expiry life len ops : forall t a e,
@@ -514,8 +555,11 @@ Theorem neighbour_until_expiry life len ops : forall t a e,
 Proof.
   unfold lrun. induction ops as [|o ops IH]; intros t a e Hu H0 Hp Hall F; cbn in F.
   - auto.
-  - destruct Hall as [Hp1 Hall]. apply (IH (lstep life len t o) a e); auto using uniq_lstep.
+  - destruct Hall as (Hlive & Hp1 & Hall). apply (IH (lstep life len t o) a e); auto using uniq_lstep.
     intros e0 F0. rewrite (lstep_nb _ _ _ _ _ _ Hu F0).
-    destruct (find t a) as [x|] eqn:G; [|congruence]. rewrite (H0 x eq_refl).
-    destruct (list_eqb (op_addr o) a); [apply orb_true_r | reflexivity].
+    destruct (list_eqb (op_addr o) a) eqn:E.
+    + apply list_eqb_eq in E. destruct (is_shb o) eqn:S; [reflexivity|]. cbn.
+      destruct (live t a (op_now o) life) as [x|] eqn:G; [|exfalso; apply (Hlive E eq_refl); reflexivity].
+      apply live_some in G as [G _]. auto.
+    + destruct (find t a) as [x|] eqn:G; [|congruence]. apply (H0 x eq_refl).
 Qed.
